@@ -23,3 +23,31 @@ def lit(s):
 def descr(s):
     """Grammar text of the description s (any text)."""
     return '"' + s.replace("\\", "\\\\").replace('"', '\\"') + '"'
+
+
+def lit_min(s):
+    """Grammar text of the literal s with the fewest escapes: a dot is escaped only where it has to be — in a run of
+    three or more dots, or in a run that ends the literal (what follows could be `...`)."""
+    out = []
+    i, n = 0, len(s)
+    while i < n:
+        c = s[i]
+        if c == ".":
+            j = i
+            while j < n and s[j] == ".":
+                j += 1
+            run = j - i
+            if run >= 3 or j == n:
+                out.append("\\." * run)
+            else:
+                out.append("." * run)
+            i = j
+            continue
+        if c in REGULAR:
+            out.append(c)
+        elif c in ESCAPABLE:
+            out.append("\\" + c)
+        else:
+            raise ValueError(f"character {c!r} cannot occur in a literal")
+        i += 1
+    return "".join(out)
